@@ -9,9 +9,7 @@ RULE = ('blade differences enumerated exhaustively over [-64,64] (quick) / [-409
         'a / k for positive k (1, small integers, random, < 1) with totals up to 2^21 quarter turns, both spellings. non-trivial = owned op result differs from its operands')
 TRUSTED = TRUSTED_COMMON
 ASSUMPTIONS = ASSUME_COMMON
-S3_LEGS = ['a / k divides the total by k (goes through Angle::new): predicate divf_total only',
-           '(a+b)-b = a within 2e-10: predicate roundtrip_total only',
-           'wrap-around case of C04_sub_total (larger subtrahend): blade part proved (C04_sub_blade, C04_lift_range), value part by predicate sub_total']
+S3_LEGS = ["a / k divides the total by k: theorem C04_divf (canonical, within 1e-10 + 2^-52 + 2^-69 + 2^-49 theta/k of theta/k for positive k in [2^-900, 2^900], blades < 2^50); negative divisors and the rest by predicate divf_total per case", '(a+b)-b = a within 2e-10: theorem C04_add_sub (blade a >= 1); blade-0 minuends and the per-case decision by predicate roundtrip_total', 'wrap-around case of C04_sub_total (larger subtrahend): blade part proved (C04_sub_blade, C04_lift_range), value part by predicate sub_total']
 
 def gap_pair(r):
     k = r.below(7)
